@@ -74,7 +74,7 @@ func isWrite(q string) bool {
 	return false
 }
 
-// CallSite returns the innermost two pegnetd frames of the current call stack.
+// CallSite returns the innermost three pegnetd frames of the current call stack.
 func CallSite(skip int) string {
 	pcs := make([]uintptr, 48)
 	n := runtime.Callers(skip, pcs)
@@ -85,7 +85,7 @@ func CallSite(skip int) string {
 		if strings.Contains(f.Function, "github.com/pegnet/pegnetd/") {
 			fn := f.Function[strings.Index(f.Function, "github.com/pegnet/pegnetd/")+len("github.com/pegnet/pegnetd/"):]
 			out = append(out, fn)
-			if len(out) == 2 {
+			if len(out) == 3 {
 				break
 			}
 		}
